@@ -1,7 +1,7 @@
 (* Properties_C14.v - "Every PDU sent is well-formed; error reports echo the offending PDU exactly".
    Theorems about the executable RTR model (Rtr/RtrModel.v), which is tied to /repo by the correspondence
    run of tools/props/C14.py on every check.  Proofs: Rtr/SendBase.v, Rtr/SendProofs.v, Rtr/SendSites.v. *)
-From RtrV Require Rtr.FsmTie3.
+From RtrV Require Rtr.FsmTie3 Rtr.FsmTie Gen.GeneratedSend Rtr.SendTie Rtr.SendTieErr.
 From RtrV Require Import Base.CSem Gen.Generated Rtr.RtrModel Rtr.RelFrame Rtr.RecvBase Rtr.SendBase Rtr.RecvProofs
      Rtr.SendProofs Rtr.SendSites.
 From RtrV Require Rtr.SendExamples.   (* concrete runs: the hypotheses below are satisfiable, the conclusions exact *)
@@ -171,6 +171,45 @@ Proof. exact error_report_bytes. Qed.
    the model on closed scripts - result, trace with the report's bytes, buffer (evaluation, not a theorem; Rtr/FsmTie3.v) *)
 Example C14_receive_pdu_report_tests := Rtr.FsmTie3.recv_rejects.
 
+(* Tie (a) for the send path.  rtr_send_pdu, rtr_send_serial_query, rtr_send_reset_query, rtr_send_error_pdu and its two wrappers are
+   translated from /repo on every run (tools/c2v_send.py -> Gen/GeneratedSend.v: variable-length array locals as objects of symbolic
+   size with every access guarded, struct locals with field stores at the probed offsets, memcpy, the translated byte-order conversions
+   towards the network reused, tr_send_all as the external call that receives the buffer's bytes).  Rtr/SendTie.v, for EVERY world:
+     the 12 bytes of the Serial Query / the 8 of the Reset Query, the state change on a failed write and the result are the model's
+     (C14_serial_query_translated, C14_reset_query_translated: every version, session id, serial number, the C truncations included);
+     rtr_send_pdu: SHUTDOWN guard, copy into the VLA, conversion of the copy, result mapping (C14_send_pdu_translated).
+   PARTIAL for the Error Report builder (Rtr/SendTieErr.v): the wrappers are tied for all inputs (from_network = rtr_send_error_pdu;
+   from_host with length 0 or < 8), but that the message rtr_send_error_pdu builds equals the model's error_report is checked by
+   evaluation on closed inputs only (with / without encapsulated PDU and text, maximum sizes, partial writes, the no-report-in-reply-
+   to-a-report guard; from_host echoing every PDU type byte-exactly) - a test of the translated code, not a theorem.
+   Differences found, both outside what the call sites pass: 16 + el + tl is computed in unsigned int without a bound (wraps for
+   el >= 2^32 - 16: the C is undefined, the model sends); from_host with 8 < el < the PDU's size converts bytes behind the copy. *)
+Theorem C14_serial_query_translated : forall w, (0 <= st (sk w) < 2^32)%Z ->
+  Rtr.SendTie.interpS (Gen.GeneratedSend.rtr_send_serial_query_gen (Rtr.FsmTie.sock_store (sk w))) w =
+  Some (Rtr.FsmTie.as_eff (fun r => r) send_serial_query w).
+Proof. exact Rtr.SendTie.send_serial_query_tie. Qed.
+
+Theorem C14_reset_query_translated : forall w, (0 <= st (sk w) < 2^32)%Z ->
+  Rtr.SendTie.interpS (Gen.GeneratedSend.rtr_send_reset_query_gen (Rtr.FsmTie.sock_store (sk w))) w =
+  Some (Rtr.FsmTie.as_eff (fun r => r) send_reset_query w).
+Proof. exact Rtr.SendTie.send_reset_query_tie. Qed.
+
+Theorem C14_send_pdu_translated : forall m b w, (0 < zlen m < 2^32)%Z -> (0 <= st (sk w) < 2^32)%Z ->
+  Gen.GeneratedSend.rtr_pdu_to_network_byte_order_gen m (Some 0%Z) = Some b ->
+  Rtr.SendTie.interpS (Gen.GeneratedSend.rtr_send_pdu_gen m (Some 0%Z) (zlen m) (Rtr.FsmTie.sock_store (sk w))) w =
+  Some (Rtr.FsmTie.as_eff (fun r => r) (send_pdu b) w).
+Proof. exact Rtr.SendTie.send_pdu_tie'. Qed.
+
+Theorem C14_error_from_network_translated : forall mE pe el code mT pt tl s w,
+  Rtr.SendTie.interpS (Gen.GeneratedSend.rtr_send_error_pdu_from_network_gen mE pe el code mT pt tl s) w =
+  Rtr.SendTie.interpS (Gen.GeneratedSend.rtr_send_error_pdu_gen mE pe el code mT pt tl s) w.
+Proof. exact Rtr.SendTieErr.send_error_pdu_from_network_tie. Qed.
+
+(* the evaluation part, in this property's cone *)
+Example C14_error_report_translation_tests :=
+  (Rtr.SendTieErr.error_pdu_reports, Rtr.SendTieErr.error_pdu_guard, Rtr.SendTieErr.from_network_reports, Rtr.SendTieErr.from_host_reports,
+   Rtr.SendTie.send_translator_clean).
+
 Print Assumptions C14_queries_wf.
 Print Assumptions C14_query_bytes.
 Print Assumptions C14_reports_wf.
@@ -199,3 +238,7 @@ Proof. exact texts_bytes. Qed.
 
 Print Assumptions C14_bytes.
 Print Assumptions C14_texts_bytes.
+Print Assumptions C14_serial_query_translated.
+Print Assumptions C14_reset_query_translated.
+Print Assumptions C14_send_pdu_translated.
+Print Assumptions C14_error_from_network_translated.
